@@ -31,7 +31,8 @@ from vf import core
 LEVEL = "model_checking"
 KINDS = ["sb21", "sb20", "advp", "sb21cfg", "mbi_class", "mbi_cfg", "otfad", "iee", "bee", "hexstr", "hab",
          "sb21cfg_same", "mbi_cfg_same",  # *_same: one configuration dictionary object reused for every build of that kind
-         "hab_same"]                       # every HAB build of the history in the same workspace folder (rebuild)
+         "hab_same",                       # every HAB build of the history in the same workspace folder (rebuild)
+         "mbi_cfg_sameobj"]                # one MBI builder object re-configured (load_from_config) for every build of that kind
 CHILD = os.path.join(os.path.dirname(os.path.abspath(__file__)), "c17_child.py")
 
 
@@ -150,11 +151,11 @@ CORE_KINDS = ["sb21", "sb20", "advp", "mbi_class", "mbi_cfg", "otfad", "iee", "b
 def histories(tier: str) -> list:
     """quick: every single construction, every ordered pair over the nine class-constructed kinds, and for the four
     config/CLI-driven kinds (slow: 1-4 s each) the pairs with themselves, with their sibling and with three core kinds;
-    thorough: all sequences up to length 2 over all 13 kinds and up to length 3 over all but `hab`."""
+    thorough: all sequences up to length 2 over all 15 kinds and up to length 3 over all but `hab`."""
     if tier == "quick":
         out = [[k] for k in KINDS]
         out += [list(t) for t in itertools.product(CORE_KINDS, repeat=2)]
-        for k, sib in (("sb21cfg", "sb21cfg_same"), ("sb21cfg_same", "sb21"), ("mbi_cfg_same", "mbi_cfg"), ("hab", "hab"), ("hab_same", "hab")):
+        for k, sib in (("sb21cfg", "sb21cfg_same"), ("sb21cfg_same", "sb21"), ("mbi_cfg_same", "mbi_cfg"), ("hab", "hab"), ("hab_same", "hab"), ("mbi_cfg_sameobj", "mbi_cfg")):
             for o in dict.fromkeys([k, sib, "sb21", "mbi_class", "otfad"]):
                 for h in ([k, o], [o, k]):
                     if h not in out:
@@ -203,7 +204,7 @@ def run(ctx: core.Ctx) -> None:
     ctx.cov["traces_validated_against_impl"] = len(hs)
     ctx.cov["history_length_bound"] = 2 if ctx.tier == "quick" else 3
     ctx.cov["kinds"] = KINDS
-    ctx.rule = ("all sequences with repetition of artifact constructions (14 kinds: SB2.0, SB2.1 by class and by config, advanced "
+    ctx.rule = ("all sequences with repetition of artifact constructions (15 kinds: SB2.0, SB2.1 by class and by config, advanced "
                 "params, encrypted MBI by class and by config, OTFAD, IEE, BEE blobs, load_hex_string(None), HAB encrypted via "
                 "the CLI) up to the length bound, each in a fresh interpreter under a counting RNG installed before import, run "
                 "under two generator seeds; distinct = distinct histories; every history is an implementation run")
